@@ -96,6 +96,8 @@ def check_groups(emitted, groups):
 def oracle(abbr, cfg, meta, r):
     """positions exact for every callback; tabstops 1..k in document order; explicit fields
     keep relative numbering inside a value and never collide across values."""
+    if r[0] == 'hang':
+        return 'expand did not return within %s s' % r[1]
     if r[0] != 'ok':
         return None                  # parse errors etc. are C07's business
     final, events = r[1], r[2]
@@ -144,8 +146,12 @@ def impl_style_events(abbr, cfg):
     uc.setdefault('options', {})
     uc['options']['output.field'] = field
     uc['options']['output.text'] = text
+    from common import time_limit, Hang
     try:
-        return ('ok', expand(abbr, uc), events)
+        with time_limit(10):
+            return ('ok', expand(abbr, uc), events)
+    except Hang:
+        return ('hang', 10)
     except Exception as e:  # noqa
         return classify_exc(e)
 
@@ -280,6 +286,10 @@ def run(ctx):
         r = impl_style_events(abbr, cfg)
         ctx.count_eval()
         ctx.cover('C13:style-%s' % r[0])
+        if r[0] == 'hang':
+            ctx.property_failure('C13:style-hang|%s|%s' % (abbr, canon_cfg(cfg)),
+                                 'C13 stylesheet expand(%r, %s) did not return within %s s' % (abbr, canon_cfg(cfg), r[1]),
+                                 {'component': 'C13-style', 'abbr': abbr, 'config': cfg, 'why': 'hang'})
         if r[0] != 'ok':
             continue
         ctx.cover('C13:style-syntax-' + cfg['syntax'])
